@@ -64,6 +64,7 @@ func (h *H[T]) C10(rc *runCtx) *Violation {
 		marathon = true
 		a = signal.Allocator{Channels: 1 + prog.Draw(2), Length: prog.Draw(2), Capacity: 1 + prog.Draw(3)}
 		nOps, cont, maxOut = 150000+prog.Draw(150000), 1<<30, 18+prog.Draw(8)
+		sim.MaxSteps = 1 << 28 // a library with goroutines of its own needs steps per operation
 		rc.tally("shape_class", "marathon")
 	default:
 		rc.tally("shape_class", "ordinary")
@@ -83,9 +84,11 @@ func (h *H[T]) C10(rc *runCtx) *Violation {
 		rc.tally("second_pool", "no")
 	}
 	pas := make([]signal.PoolAllocator[T], len(as))
-	for i := range as {
-		pas[i] = signal.PoolAlloc[T](as[i])
-	}
+	sim.Setup(func() { // (every library call is made by a simulated task)
+		for i := range as {
+			pas[i] = signal.PoolAlloc[T](as[i])
+		}
+	})
 	// The three ways a caller can hold the allocator: the original value, a
 	// copy by value, a shared pointer.
 	get := func(pool, handle int) (b *signal.Buffer[T], pv any) {
